@@ -78,6 +78,17 @@ theorem Inv.step {L : Live} {ever : List AreaT} {r r' : Rec} (h : Inv L ever r) 
     simp only [Lookup.step, pure, Except.pure] at hstep
     injection hstep with hstep; subst hstep
     exact h.peek (by constructor <;> rfl) ⟨h.cache.cds, h.cache.slot, h.cache.tuple⟩
+  | hasCds aid gid =>
+    simp only [Lookup.step, pure, Except.pure] at hstep
+    injection hstep with hstep; subst hstep
+    exact h.peek (by constructor <;> rfl) ⟨h.cache.cds, h.cache.slot, h.cache.tuple⟩
+  | indexOf aid gid =>
+    obtain ⟨i, _, e⟩ := indexOf_ok hstep
+    subst e
+    obtain ⟨e, c, _, _⟩ := peekRegen_spec h.cache aid
+    exact h.peek { len := e.len, genes := e.genes, byName := e.byName, byLoc := e.byLoc, regions := e.regions,
+                   protos := e.protos, cands := e.cands, subs := e.subs, members := e.members,
+                   sections := e.sections, defs := e.defs, regionOf := e.regionOf } ⟨c.cds, c.slot, c.tuple⟩
 
 theorem liveAfter_append (ops : List Op) (op : Op) : liveAfter (ops ++ [op]) = (liveAfter ops).step op := by
   simp [liveAfter, List.foldl_append]
